@@ -64,6 +64,22 @@ CLAIMS = {
     "C15": dict(
         text="Coq theorems over ALL entry sequences, read block by block (a run of non-file entries then a file): files() lists a file unless an @ignore lies between it and the preceding file or the start; files_prefixed() lists the same files prefixed with the most recent @cwd (empty if none) plus '/' unless it ends in one; install/uninstall lists contain exactly those files plus exactly the listed command kinds in original order (C15_cmds_block, C15_views_same_files, C15_only_listed_kinds); is_preserve iff an @option preserve entry exists; the kind filters are definitional. Correspondence each run: valid lists with consecutive/trailing/separated @ignore and @cwd changes, all twelve queries vs the model, plus same-files cross-checks on the implementation's own answers.",
         ref="§7 C15", note=TB, technique="Coq proof (induction over entry blocks) + model/implementation differential correspondence + cross-query oracle"),
+    "C16": dict(
+        text="Coq theorems for ALL inputs: the read loop (trim, skip blank lines, flush at each 'PKGNAME=' line, final flush) equals all_some(map record_of (blocks (clean lines))) where blocks is a declarative grouping - one block per 'PKGNAME=' line reaching to the next - so record i is a function of block i only, the number of records is the number of blocks, and the read fails as a whole if any block fails or the reader reports an I/O error (C16_segmentation, C16_no_leak, C16_count, C16_io_error); scalar fields are the trimmed value of the last line for their key, absent keys None (C16_last_wins, C16_absent). Correspondence each run: record soups over the 15 keys with repeats, unknown keys, values with '=', Unicode blanks, CRLF, single faults, and a reader failing after k lines for every k.",
+        ref="§7 C16", note=TB + " serde's StrDeserializer plumbing and HashMap are abstracted (lookups by key); BufRead::lines modelled by `lines`.",
+        technique="Coq proof (loop = declarative block grouping, all-or-nothing) + model/implementation differential correspondence"),
+    "C17": dict(
+        text="PARTIAL (stack depth, memory, wall-clock are runtime effects). Every unwrap/expect/index/slice of the anchored code is a Panic branch of the model under the same guard and every data-dependent loop runs on fuel; Coq theorems show for EVERY input a value or a reported error - never Panic, never OutOfFuel - for the version tokeniser, Dewey::new, glob compile, Pattern::new, compile+match (recursion depth = number of '{'), best_match, Depend::new, pkg_summary parsing, all Summary call sequences and getters, PLIST entry and list parsing; the remaining models (distinfo, digest names, scanindex, metadata, pkgdb listing) are total functions with no Panic branch. Tied to the crate each run by running every operation of every other property plus mutation fuzz (truncate, duplicate, splice, 19-40 digit numbers, NUL, non-UTF-8, 64 KiB lines, deep nesting) under catch_unwind and a process watchdog: PANIC/ABORT/HANG or any difference from the model is a violation.",
+        ref="§7 C17, §8 D3/D10/D11/D12", note=TB + " Known finding KF-C17-altdepth (>= ~10^4 brace groups overflow the stack) is listed in known_findings.json.",
+        technique="Coq proof (totality of the models with explicit panic branches and fuel) + fuzzing differential correspondence under catch_unwind/watchdog"),
+    "C19": dict(
+        text="Coq theorems for ALL strings: PkgPath::new succeeds iff the path components (repeated/trailing slashes and non-leading '.' ignored) are [name,name] or ['..','..',name,name]; the short path then has components [a,b] and the full path ['..','..',a,b]; both spellings give equal values; re-parsing either accessor's output gives an equal value (uses the proved fact that '../../'+p adds two ParentDir components and that Normal components are ordinary names); Depend::new succeeds iff the argument splits at ':' into exactly two parts with valid pattern and path, exposing exactly those parts. Correspondence each run: EXHAUSTIVE over all '/'-joined sequences of <= 5 (thorough 6) segments from {'..','.','a','b',''} with/without leading '/', plus pattern x path x colon-count grids.",
+        ref="§7 C19", note=TB + " Path::components / PathBuf::push are modelled (Distinfo.v, PkgPathM.v).",
+        technique="Coq proof (path component lemmas) + exhaustive small-scope model/implementation correspondence"),
+    "C20": dict(
+        text="PARTIAL (directory enumeration order and file I/O are not modelled). Coq theorems over ALL directory listings: the iterator yields exactly the entries that are directories containing +COMMENT, +CONTENTS and +DESC, each once, independent of listing order (Permutation), with pkgname = directory name and base/version = the parts before/after its last '-' exactly as PkgName splits it; the 14 metadata names are a bijection; is_valid iff comment, contents and description are non-empty; a non-numeric +SIZE_* is an error, not a panic. Correspondence each run: real trees in a private temp dir (names with 1-3 '-', nb, no '-', non-ASCII and non-UTF-8 names, every subset of the mandatory files missing, stray files, empty db), results compared sorted; the metadata table and read_metadata call sequences.",
+        ref="§7 C20, §8 D10/D11", note=TB + " fs::read_dir / exists / read_to_string are exercised on real trees, not modelled.",
+        technique="Coq proof (filter/map specification, Permutation invariance) + model/implementation differential correspondence on real directory trees"),
     "C18": dict(
         text="Coq theorems for all strings: with a '-' base ++ '-' ++ version rebuilds the name and the version has no '-'; without, the whole string is the base; for EVERY prefix p a version p++'nb'++digits has PkgName revision nbval(digits) and the version comparison's revision is the same number (no token of the tokeniser can straddle the final nb); no 'nb' -> None. Correspondence each run: PkgName::new vs model on structured names, plus probes of the matcher's revision through 'base>=VERnbK' patterns.",
         ref="§7 C18", note=TB + " The pkg_summary pkgbase()/pkgversion() agreement is C18_summary_agrees (SummaryPkg.v).",
